@@ -159,7 +159,10 @@ struct Explorer {
     if (on(EV_FAULT) && b.dev < maxdev) {
       for (int site : f.faults) {
         if (w.fault[site]) continue;
-        for (int skip : f.fault_skips) v.push_back(mk(EV_FAULT, site, skip));
+        for (int skip : f.fault_skips) {
+          if (skip && !f.fault_skip_sites.empty() && std::find(f.fault_skip_sites.begin(), f.fault_skip_sites.end(), site) == f.fault_skip_sites.end()) continue;
+          v.push_back(mk(EV_FAULT, site, skip));
+        }
       }
     }
     if (on(EV_SRCADDR) && b.n[EV_SRCADDR] < 1) v.push_back(mk(EV_SRCADDR, w.src_variant ? 0 : 1));
